@@ -342,7 +342,7 @@ def fasta_index_file(tmp, contigs):
     return fai
 
 
-def eval_overlap(n_inputs, contigs, by_barcodes, items, fasta=False):
+def eval_overlap(n_inputs, contigs, by_barcodes, items, fasta=False, peek=None):
     """Overlap iteration over instrumented inputs (a configuration of C11): pulls per input against records emitted.
     `fasta`: the contig order is given by a FASTA index file instead of a list."""
     import shutil
@@ -353,12 +353,24 @@ def eval_overlap(n_inputs, contigs, by_barcodes, items, fasta=False):
     config = {"n_inputs": n_inputs, "contigs": contigs, "by_barcodes": by_barcodes, "items": [list(x) for x in items]}
     if fasta and contigs:
         config["fasta_index"] = True
+    kw = {}
+    if peek:
+        # the look-ahead class given through the extension point, in the forms a caller may hold it: the class itself, a
+        # sub-class, functools.partial of it, a lambda around it
+        import functools
+        from maflib.util import PeekableIterator
+
+        class MyPeekable(PeekableIterator):
+            pass
+        kw["peekable_iterator_class"] = {"class": PeekableIterator, "subclass": MyPeekable, "partial": functools.partial(PeekableIterator),
+                                         "lambda": (lambda it: PeekableIterator(it))}[peek]
+        config["peekable_iterator_class"] = peek
     info = {"inputs": inputs, "steps": 0, "pulled": None, "emitted": None, "exc": None}
     failures = []
     tmp = tempfile.mkdtemp(prefix="verif_c19_") if (fasta and contigs) else None
     try:
-        it = (LocatableOverlapIterator(srcs, fasta_index=fasta_index_file(tmp, contigs), by_barcodes=by_barcodes) if tmp else
-              LocatableOverlapIterator(srcs, contigs=contigs, by_barcodes=by_barcodes))
+        it = (LocatableOverlapIterator(srcs, fasta_index=fasta_index_file(tmp, contigs), by_barcodes=by_barcodes, **kw) if tmp else
+              LocatableOverlapIterator(srcs, contigs=contigs, by_barcodes=by_barcodes, **kw))
         emitted = [0] * len(inputs)
         bad = None
         if any(s.pulled > 1 for s in srcs):
@@ -654,7 +666,7 @@ def overlap_cases(ctx, out, rng):
     for _ in range(ctx.scale(200, 2500)):
         n_inputs, contigs, by_barcodes, items = c11.gen_config(rng, 7)
         out.evaluations += 1
-        info, failures = eval_overlap(n_inputs, contigs, by_barcodes, items)
+        info, failures = eval_overlap(n_inputs, contigs, by_barcodes, items, peek=rng.choice([None, None, "class", "subclass", "partial", "lambda"]))
         out.failures += failures
         out.nontrivial.add(("overlap", repr(info["inputs"])))
 
@@ -715,6 +727,46 @@ def eval_sorter_large(cap, sp, extra):
                     break
         s.close()
     return failures
+
+
+def eval_sorter_refusing_key(cap, sp, pattern):
+    """A key function that refuses some items with KeyError (a record without a readable position): whether the sorter
+    refuses such an item or takes it in, the items whose add() returned normally and that are not yet on disk stay fewer
+    than the capacity.  `pattern`: per item, True = the key function accepts it."""
+    from maflib.sorter import Sorter
+    from .c07 import JsonCodec
+
+    def keyf(x):
+        if x[0] is None:
+            raise KeyError("no key")
+        return x[0]
+    failures = []
+    with tempfile.TemporaryDirectory() as tmp:
+        s = Sorter(cap, JsonCodec(), keyf, tmp_dir=tmp, always_spill=sp)
+        taken = 0
+        for k, ok in enumerate(pattern):
+            try:
+                s += ((k * 7919) % 10007 if ok else None, k)
+                taken += 1
+            except KeyError:
+                pass
+            spilled = spilled_count(tmp)
+            if taken - spilled >= cap:
+                failures.append({"what": "after %d items whose add() returned normally (capacity %d, a key function that refuses some items) only %d are on disk (%d still in memory, must be < %d)" % (
+                    taken, cap, spilled, taken - spilled, cap), "kind": "sorter-not-spilling-refusing-key", "capacity": cap, "always_spill": sp, "pattern": list(pattern)})
+                break
+        s.close()
+    return failures
+
+
+def sorter_refusing_key_cases(ctx, out, rng):
+    for cap in (2, 3, 4):
+        for _ in range(ctx.scale(3, 12)):
+            pattern = [rng.random() < 0.5 for _k in range(cap * 4)] if rng.random() < 0.5 else [k % 2 == 0 for k in range(cap * 4)]
+            out.evaluations += 1
+            out.failures += eval_sorter_refusing_key(cap, rng.random() < 0.5, pattern)
+            out.nontrivial.add(("sorter-refusing-key", cap, tuple(pattern)))
+            out.distribution["sorter with a key function that refuses some items"] += 1
 
 
 def eval_sorter_many_runs(cap, sp, runs):
@@ -803,6 +855,7 @@ def run(ctx):
     sorter_cases(ctx, out, rng)
     sorter_large_cases(ctx, out, ctx.rng("c19-large"))
     sorter_many_runs_cases(ctx, out, ctx.rng("c19-many-runs"))
+    sorter_refusing_key_cases(ctx, out, ctx.rng("c19-refusing-key"))
     # own streams: the cases above are unchanged
     reader_factory_cases(ctx, out, ctx.rng("c19", "reader-factories"))
     allele_cases(ctx, out, ctx.rng("c19", "allele"))
@@ -865,7 +918,7 @@ def replay_case(ctx, failure):
         items = [tuple(x) for x in c["items"]]
         print("executed: LocatableOverlapIterator over %d counting input(s), contigs=%s, by_barcodes=%s, items (tumor, normal, chrom, start, end, input)=%s" % (
             c["n_inputs"], c["contigs"], c["by_barcodes"], items))
-        info, failures = eval_overlap(c["n_inputs"], c["contigs"], c["by_barcodes"], items, fasta=bool(c.get("fasta_index")))
+        info, failures = eval_overlap(c["n_inputs"], c["contigs"], c["by_barcodes"], items, fasta=bool(c.get("fasta_index")), peek=c.get("peekable_iterator_class"))
         if info["exc"]:
             print("implementation: raised %s" % info["exc"])
         else:
@@ -917,6 +970,14 @@ def replay_case(ctx, failure):
             f["capacity"], f["always_spill"], f["capacity"] + f.get("extra", 60)))
         failures = eval_sorter_large(f["capacity"], f["always_spill"], f.get("extra", 60))
         print("implementation: %s" % (failures[0]["what"] if failures else "the bound held at every point looked at"))
+        return failures
+    elif kind == "sorter-not-spilling-refusing-key":
+        if not (isinstance(f.get("capacity"), int) and isinstance(f.get("pattern"), list)):
+            return None
+        print("executed: Sorter(capacity=%d, always_spill=%s, key function raising KeyError for the items marked False) += %d items %s; spill files decoded after every add" % (
+            f["capacity"], f["always_spill"], len(f["pattern"]), f["pattern"]))
+        failures = eval_sorter_refusing_key(f["capacity"], f["always_spill"], f["pattern"])
+        print("implementation: %s" % (failures[0]["what"] if failures else "the bound held after every add"))
         return failures
     elif kind == "sorter-not-spilling-many-runs":
         if not (isinstance(f.get("capacity"), int) and "always_spill" in f):
